@@ -314,3 +314,99 @@ def history(args):
         return {'label': label, 'ev': ev, 'info': info}
     finally:
         common.cleanup(d)
+
+
+# ----------------------------------------------------------------------
+# applying the distributed flows to the core (Orificing._setup_input_orifice)
+# ----------------------------------------------------------------------
+
+def apply_history(args):
+    """Worker: a real core input in which only some assembly types are
+    grouped; the real group_by_power, synthetic group flows, then the input
+    the optimiser writes for the orificed sweep.  Events: GEnd-like grouping
+    summary + one Apply event (flows found at every position)."""
+    label, spec = args
+    import random
+    dassh = common.import_dassh()
+    rng = random.Random(spec['seed'])
+    d = common.workdir('orfa-' + label)
+    ev = []
+    info = {'label': label, 'spec': spec}
+    try:
+        names = spec['names']            # type per position, 'tc' ungrouped
+        n = len(names)
+        OF = 0.058
+        types = {'ta': cases.fitted_type(2, OF),
+                 'tb': cases.fitted_type(2, OF, p2d=1.22),
+                 'tc': cases.fitted_type(2, OF, p2d=1.15)}
+        types = {k: v for k, v in types.items() if k in names}
+        lay = [(r_, p_, names[i]) for i, (r_, p_) in
+               enumerate(scenarios.layout_positions(n))]
+        npin = cases.n_pins(2)
+        powers = [2.0e4 * npin * f for f in spec['pf']]
+        c = scenarios.make_core(rng, types, lay, [0.5] * n, gap_model='none',
+                                coolant='const', asm_power=powers, L=0.3,
+                                ncell=1)
+        # the power of every assembly: the integral of its own profile
+        ptrue = []
+        for i in range(n):
+            pw_ = c['power'][str(i + 1)]
+            tot = 0.0
+            for comp in ('pins', 'duct', 'cool'):
+                arr = pw_.get(comp)
+                if arr is None:
+                    continue
+                for ci in range(len(pw_['z']) - 1):
+                    for coeffs in arr[ci]:
+                        tot += cases.cell_integral(coeffs, pw_['z'][ci],
+                                                   pw_['z'][ci + 1])
+            ptrue.append(tot)
+        t_out = spec.get('t_out', 773.15)
+        c['orificing'] = {
+            'assemblies_to_group': [k for k in ('ta', 'tb') if k in names],
+            'n_groups': spec['ng'], 'value_to_optimize': 'peak coolant temp',
+            'bulk_coolant_temp': t_out, 'group_cutoff': spec.get('cutoff', 0.05),
+            'group_cutoff_delta': spec.get('delta', 0.005)}
+        path = cases.write_case(c, str(d))
+        try:
+            inp = dassh.DASSH_Input(path)
+            orf = dassh.Orificing(inp)
+            orf.group_by_power()
+        except SystemExit:
+            ev.append({'e': 'Crash', 'stage': 'group', 'exc': 'SystemExit',
+                       'msg': 'grouping stopped with an error'})
+            info['group'] = 'error'
+            return {'label': label, 'ev': ev, 'info': info}
+        info['group'] = 'ok'
+        gd = orf.group_data
+        ids = [int(x) for x in gd[:, 0]]
+        grp = [int(x) for x in gd[:, 2]]
+        gpos = [p for p in range(n) if names[p] in ('ta', 'tb')]
+        # distinct flows per group, the same for all members
+        gflow = {g: 0.2 + 0.137 * g + 0.01 * rng.random()
+                 for g in sorted(set(grp))}
+        m = np.array([gflow[g] for g in grp], float)
+        quantum = float(np.sum(m)) / FQ
+        try:
+            inp2 = orf._setup_input_orifice(m)
+            found = []
+            for p in range(n):
+                a = inp2.data['Assignment']['ByPosition'][p]
+                kw = {k.lower(): v for k, v in (a[2] if a else {}).items()}
+                found.append(fq(kw['flowrate'], quantum)
+                             if 'flowrate' in kw else -1)
+        except BaseException as e:
+            ev.append({'e': 'Crash', 'stage': 'apply',
+                       'exc': type(e).__name__, 'msg': str(e)[:200]})
+            return {'label': label, 'ev': ev, 'info': info}
+        # an ungrouped assembly is given the flow that brings it to the
+        # bulk outlet temperature target
+        ngflow = [fq(ptrue[p] / CP / (t_out - T_IN), quantum)
+                  if p not in gpos else 0 for p in range(n)]
+        ev.append({'e': 'Apply', 'ids': ids, 'gpos': gpos, 'grp': grp,
+                   'ng': spec['ng'], 'm': [fq(x, quantum) for x in m],
+                   'found': found, 'ngflow': ngflow,
+                   'tol': max(2, FQ // 200000)})
+        return {'label': label, 'ev': ev, 'info': info}
+    finally:
+        common.cleanup(d)
